@@ -103,11 +103,19 @@ Qed.
 
 (* the eight definitions that may carry a description *)
 Ltac rl_kw_def lemma eqA :=
-  eapply (rl_select_desc_kw _ _ _ _ _ _ ltac:(reflexivity) ltac:(discriminate) lemma);
-  [ intros r; unfold rgl_named_def; rewrite rl_desc_kw_A; symmetry; apply eqA
-  | intros d0 r; unfold rgl_named_def; rewrite rl_desc_kw_B, rgl_def_desc by reflexivity; symmetry;
-    etransitivity; [|apply eqA]; reflexivity
-  | eassumption | eassumption | eassumption | eassumption ].
+  let T := type of lemma in
+  match T with
+  | rl_sim (rl_desc_kw ?kw) ?g ?Q =>
+      eapply (rl_select_desc_kw kw g Q);
+      [ reflexivity
+      | discriminate
+      | exact lemma
+      | let r := fresh "r" in intros r; unfold rgl_named_def; rewrite rl_desc_kw_A; symmetry; apply eqA
+      | let d0 := fresh "d0" in let r := fresh "r" in
+        intros d0 r; unfold rgl_named_def; rewrite rl_desc_kw_B, rgl_def_desc by reflexivity; symmetry;
+        etransitivity; [|apply eqA]; reflexivity
+      | eassumption | eassumption | eassumption | eassumption ]
+  end.
 
 (* ------------------------------------------------------------------ extensions.rs *)
 Lemma rgl_ext_objext r : rl_acc (rg_named RgkObjectExt (rg_seq (rg_peek rg_is_objext_start) (rgl_object_tail LP))) r
@@ -216,4 +224,166 @@ Proof.
     change rg_s_schema with pkw_schema. change rg_s_scalar with pkw_scalar. change rg_s_type with pkw_type.
     change rg_s_interface with pkw_interface. change rg_s_union with pkw_union. change rg_s_enum with pkw_enum.
     change rg_s_input with pkw_input. rewrite H1, H2, H3, H4, H5, H6, H7. reflexivity.
+Qed.
+
+(* ------------------------------------------------------------------ document.rs: select_definition *)
+Lemma rgl_ts_def_kw_none w r :
+  p_str_eqb w pkw_schema = false -> p_str_eqb w pkw_scalar = false -> p_str_eqb w pkw_type = false ->
+  p_str_eqb w pkw_interface = false -> p_str_eqb w pkw_union = false -> p_str_eqb w pkw_enum = false ->
+  p_str_eqb w pkw_input = false -> p_str_eqb w pkw_directive = false ->
+  rgl_ts_def_kw LP ((TkName, w) :: r) = RgNo.
+Proof.
+  intros H1 H2 H3 H4 H5 H6 H7 H8. unfold rgl_ts_def_kw.
+  rewrite (rg_streq_p rg_s_schema), (rg_streq_p rg_s_scalar), (rg_streq_p rg_s_type), (rg_streq_p rg_s_interface),
+          (rg_streq_p rg_s_union), (rg_streq_p rg_s_enum), (rg_streq_p rg_s_input), (rg_streq_p rg_s_directive).
+  change rg_s_schema with pkw_schema. change rg_s_scalar with pkw_scalar. change rg_s_type with pkw_type.
+  change rg_s_interface with pkw_interface. change rg_s_union with pkw_union. change rg_s_enum with pkw_enum.
+  change rg_s_input with pkw_input. change rg_s_directive with pkw_directive.
+  rewrite H1, H2, H3, H4, H5, H6, H7, H8. reflexivity.
+Qed.
+Lemma rgl_ts_def_kw_nonname k d r : k <> TkName -> rgl_ts_def_kw LP ((k, d) :: r) = RgNo.
+Proof. intros H. destruct k; try reflexivity. contradiction. Qed.
+
+(* a string in front of something that is not a definition keyword *)
+Lemma rgl_def_desc_no d0 k2 d2 r :
+  (k2 = TkName -> rg_streq rg_s_fragment d2 = false /\ rgl_ts_def_kw LP ((TkName, d2) :: r) = RgNo) ->
+  rl_acc (rgl_definition LP) ((TkStringValue, d0) :: (k2, d2) :: r) = RgNo.
+Proof.
+  intros H. unfold rl_acc, rgl_definition, rgl_desc_then. destruct k2; try reflexivity.
+  destruct (H eq_refl) as [H1 H2]. rewrite H1, andb_false_r, H2. reflexivity.
+Qed.
+
+(* the second token of a String-first document position is a Name when its text is a keyword *)
+Lemma rl_second_is_name k2 kw : rl_tok_ok k2 kw = true -> rl_is_kw_str kw -> k2 = TkName.
+Proof.
+  intros Hok Hkw. destruct (tkind_eqb k2 TkName) eqn:Hk; [apply tkind_eqb_eq; exact Hk|]. exfalso.
+  assert (Hn : k2 <> TkName) by (intros H; apply tkind_eqb_eq in H; congruence).
+  pose proof (rl_tok_not_kw _ _ kw Hok Hn Hkw) as Hf. rewrite p_str_eqb_refl in Hf. discriminate.
+Qed.
+
+Lemma rl_gen_select_definition def f : rl_gen (g_select_definition def f).
+Proof. split; [apply (gg_select_definition CT CT_ok)|apply (gg_select_definition CX CX_ok)]. Qed.
+
+(* extensions reached through a description: reported *)
+Lemma rl_extensions_after_string f s u s' t d0 k2 r :
+  rl_ok s -> tr_ok (ps_rec s) -> ps_cur s = Some t ->
+  rl_sigs s = (TkStringValue, d0) :: (k2, pkw_extend) :: r -> g_extensions f s = POk (u, s') ->
+  ps_errors s' <> ps_errors s.
+Proof.
+  intros Hok Ht Hc Hs E. pose proof Hok as [Hinv Ha].
+  assert (Hk : tok_kind t = TkStringValue /\ rl_sig (ps_items s) = (k2, pkw_extend) :: r).
+  { pose proof (rl_sigs_head _ _ Hinv Hc) as Hh. rewrite Hs in Hh. destruct (tkind_eqb (tok_kind t) TkEof); [discriminate|].
+    injection Hh as Hh1 _ Hh2. auto. }
+  destruct Hk as [Hk Hr]. assert (Hne : tok_kind t <> TkEof) by congruence.
+  destruct (rl_peek_token_n2 _ _ Hinv Hc Hne) as (t2 & Hp2 & Hv2). rewrite Hr in Hv2. destruct Hv2 as (_ & Hd & _).
+  unfold g_extensions in E. unfold p_bind at 1 in E. unfold p_peek_data_n in E. unfold p_bind at 1 in E.
+  rewrite Hp2 in E. cbn [p_ret option_map] in E. rewrite Hd in E. cbn in E.
+  eapply rl_err_and_pop_run; eauto.
+Qed.
+
+Lemma rgl_def_fragment_name r :
+  rl_acc (rgl_definition LP) ((TkName, pkw_fragment) :: r) = rgl_fragment_rest r.
+Proof.
+  destruct r as [|[k w] r']; [reflexivity|]. destruct k; try reflexivity.
+  unfold rgl_fragment_rest. unfold rg_seq at 1, rg_bind at 1. cbn [rg_sat]. unfold rg_is_fragname.
+  cbn [rg_is fst snd tkind_eqb andb].
+  unfold rl_acc, rgl_definition, rgl_exec_definition, rgl_fragment.
+  change (rg_is_optype (TkName, pkw_fragment) || rg_streq rg_s_fragment pkw_fragment) with true. cbv iota.
+  change (rg_is_kw rg_s_fragment (TkName, pkw_fragment)) with true. cbv iota. cbn [andb].
+  destruct (rg_streq rg_s_on w); cbn [negb]; cbv iota.
+  - reflexivity.
+  - exact (eq_trans (rl_acc_ret (RgkFragment, Some w) (rgl_fragment_tail LP) r')
+                    (eq_sym (rg_seq_assoc' _ _ _ r'))).
+Qed.
+Lemma rgl_def_fragment_desc d0 r :
+  rl_acc (rgl_definition LP) ((TkStringValue, d0) :: (TkName, pkw_fragment) :: r) = rgl_fragment_rest ((TkName, pkw_fragment) :: r).
+Proof.
+  rewrite (rgl_fragment_rest_eq pkw_fragment r eq_refl).
+  exact (rl_acc_ret (RgkFragment, Some pkw_fragment) (rgl_fragment_tail LP) r).
+Qed.
+
+Lemma rgl_def_optype w r : rg_is_optype (TkName, w) = true ->
+  rl_acc (rgl_definition LP) ((TkName, w) :: r) = rgl_operation_p ((TkName, w) :: r).
+Proof.
+  intros H. rewrite <- (rgl_operation_acc _ _ H). unfold rl_acc, rgl_definition. rewrite H. cbn [orb].
+  unfold rgl_exec_definition. destruct (rg_is_kw rg_s_fragment (TkName, w)) eqn:Hf; [|reflexivity].
+  exfalso. unfold rg_is_kw in Hf. cbn [fst snd tkind_eqb andb] in Hf. apply rg_streq_eq in Hf. subst w. discriminate H.
+Qed.
+Lemma rgl_def_lcurly d r : rl_acc (rgl_definition LP) ((TkLCurly, d) :: r) = rgl_selset LP ((TkLCurly, d) :: r).
+Proof. exact (rl_acc_ret (RgkOperation, None) (rgl_selset LP) ((TkLCurly, d) :: r)). Qed.
+
+Theorem rl_select_definition f def s u s' :
+  rl_ok s -> tr_ok (ps_rec s) -> g_select_definition def f s = POk (u, s') -> rl_dispatch def (rl_sigs s) ->
+  rl_sound (rl_acc (rgl_definition LP)) s s' /\ rl_complete (rl_acc (rgl_definition LP)) s s'.
+Proof.
+  intros Hok Ht E Hd. pose proof Hok as [Hinv Ha]. destruct (rl_inv_cur _ Hinv) as (t & Hc & Hi & _).
+  unfold g_select_definition in E.
+  destruct (p_str_eqb def pkw_directive) eqn:K1.
+  { apply p_str_eqb_eq in K1. subst def. rl_kw_def (rl_sim_directive_definition f) rgl_def_directive. }
+  destruct (p_str_eqb def pkw_enum) eqn:K2.
+  { apply p_str_eqb_eq in K2. subst def. rl_kw_def (rl_sim_enum_type_definition f) rgl_def_enum. }
+  destruct (p_str_eqb def pkw_extend) eqn:K3.
+  { apply p_str_eqb_eq in K3. subst def.
+    destruct (rl_sigs s) as [|[k d] r] eqn:Es; [contradiction|]. destruct k; try contradiction; cbn [rl_dispatch] in Hd.
+    - discriminate Hd.
+    - subst d. eapply rl_extensions; eauto.
+    - destruct r as [|[k2 d2] r2]; [discriminate Hd|]. destruct Hd as [<- Hok2].
+      pose proof (rl_second_is_name _ _ Hok2 eq_refl) as ->.
+      apply rl_post_dirty; [eapply rl_extensions_after_string; eauto|]. rewrite Es. reflexivity. }
+  destruct (p_str_eqb def pkw_fragment) eqn:K4.
+  { apply p_str_eqb_eq in K4. subst def.
+    destruct (rl_sigs s) as [|[k d] r] eqn:Es; [contradiction|]. destruct k; try contradiction; cbn [rl_dispatch] in Hd.
+    - discriminate Hd.
+    - subst d. apply (rl_post_ext (rg_seq (rg_sat (rg_is_kw rg_s_fragment)) rgl_fragment_rest)).
+      + rewrite Es, rgl_def_fragment_name. reflexivity.
+      + apply (proj2 (rl_sim_fragment_definition f (rg_is_kw rg_s_fragment)) s u s' E Hok Ht). rewrite Es. reflexivity.
+    - destruct r as [|[k2 d2] r2]; [discriminate Hd|]. destruct Hd as [<- Hok2].
+      pose proof (rl_second_is_name _ _ Hok2 eq_refl) as ->.
+      apply (rl_post_ext (rg_seq (rg_sat (rg_is TkStringValue)) rgl_fragment_rest)).
+      + rewrite Es, rgl_def_fragment_desc. reflexivity.
+      + apply (proj2 (rl_sim_fragment_definition f (rg_is TkStringValue)) s u s' E Hok Ht). rewrite Es. reflexivity. }
+  destruct (p_str_eqb def pkw_input) eqn:K5.
+  { apply p_str_eqb_eq in K5. subst def. rl_kw_def (rl_sim_input_object_type_definition f) rgl_def_input. }
+  destruct (p_str_eqb def pkw_interface) eqn:K6.
+  { apply p_str_eqb_eq in K6. subst def. rl_kw_def (rl_sim_interface_type_definition f) rgl_def_interface. }
+  destruct (p_str_eqb def pkw_type) eqn:K7.
+  { apply p_str_eqb_eq in K7. subst def. rl_kw_def (rl_sim_object_type_definition f) rgl_def_type. }
+  destruct (p_str_eqb def pkw_query || p_str_eqb def pkw_mutation || p_str_eqb def pkw_subscription
+            || p_str_eqb def pkw_lcurly) eqn:K8.
+  { (* operation_definition decides by the kind of the first token *)
+    destruct (proj2 (rl_sim_operation_definition f) s u s' E Hok Ht I) as [Hs Hcm].
+    match type of Hs with rl_sound ?q _ _ => apply (rl_post_ext q); [|exact (conj Hs Hcm)] end. cbv beta.
+    destruct (rl_sigs s) as [|[k d] r] eqn:Es; [contradiction|]. destruct k; try contradiction; cbn [rl_dispatch] in Hd.
+    - symmetry. apply rgl_def_lcurly.
+    - subst d. symmetry.
+      destruct (rg_is_optype (TkName, def)) eqn:Hop; [apply rgl_def_optype; exact Hop|].
+      (* a Name that reads `{` is not an operation type for either side *)
+      rewrite rl_optype_view in Hop. apply orb_false_elim in Hop as [Hop H3]. apply orb_false_elim in Hop as [H1 H2].
+      rewrite H1, H2, H3 in K8. cbn [orb] in K8. apply p_str_eqb_eq in K8. subst def. reflexivity.
+    - destruct r as [|[k2 d2] r2].
+      + subst def. discriminate K8.
+      + destruct Hd as [<- Hok2]. symmetry. apply rgl_def_desc_no. intros ->.
+        (* the second token reads query / mutation / subscription / `{` : none is a type-system keyword *)
+        apply orb_prop in K8 as [K8|K8]; [apply orb_prop in K8 as [K8|K8]; [apply orb_prop in K8 as [K8|K8]|]|];
+          apply p_str_eqb_eq in K8; subst def; split; reflexivity. }
+  destruct (p_str_eqb def pkw_scalar) eqn:K9.
+  { apply p_str_eqb_eq in K9. subst def. rl_kw_def (rl_sim_scalar_type_definition f) rgl_def_scalar. }
+  destruct (p_str_eqb def pkw_schema) eqn:K10.
+  { apply p_str_eqb_eq in K10. subst def. rl_kw_def (rl_sim_schema_definition f) rgl_def_schema. }
+  destruct (p_str_eqb def pkw_union) eqn:K11.
+  { apply p_str_eqb_eq in K11. subst def. rl_kw_def (rl_sim_union_type_definition f) rgl_def_union. }
+  (* not the start of a definition *)
+  apply rl_post_dirty; [eapply rl_err_and_pop_run; eauto|].
+  apply orb_false_elim in K8 as [K8 KL]. apply orb_false_elim in K8 as [K8 KS]. apply orb_false_elim in K8 as [KQ KM].
+  destruct (rl_sigs s) as [|[k d] r] eqn:Es; [contradiction|]. destruct k; try contradiction; cbn [rl_dispatch] in Hd.
+  - subst def. discriminate KL.
+  - subst d. unfold rl_acc, rgl_definition.
+    assert (Hop : rg_is_optype (TkName, def) = false) by (rewrite rl_optype_view, KQ, KS, KM; reflexivity).
+    rewrite Hop. rewrite (rg_streq_p rg_s_fragment), (rg_streq_p rg_s_extend).
+    change rg_s_fragment with pkw_fragment. change rg_s_extend with pkw_extend. rewrite K4, K3. cbn [orb].
+    rewrite rgl_ts_def_kw_none by assumption. reflexivity.
+  - destruct r as [|[k2 d2] r2]; [subst def; reflexivity|]. destruct Hd as [<- Hok2].
+    apply rgl_def_desc_no. intros ->. split.
+    + rewrite rg_streq_p. exact K4.
+    + apply rgl_ts_def_kw_none; assumption.
 Qed.
